@@ -83,7 +83,7 @@ Definition clear_slot (x : id) (l : list (option id)) : list (option id) :=
 Definition left_of (s : bheap) (p : id) : option (option id) := nth_error (bkids s p) 0.
 Definition right_of (s : bheap) (p : id) : option (option id) := nth_error (bkids s p) 1.
 
-(* basenode.py `ancestors` (node = self.parent; while node is not None: yield node; node = node.parent) *)
+(* basenode.py:411-421 `ancestors` (node = self.parent; while node is not None: yield node; node = node.parent) *)
 Fixpoint banc (s : bheap) (fuel : nat) (c : id) : list id :=
   match fuel with
   | 0 => []
@@ -341,13 +341,13 @@ Definition bnew (cfg : config) (s : bheap) (l r par : arg) (ch : list arg) (fp f
 (* operations *)
 
 Inductive bop :=
-| BSetParent (c : id) (a : arg) (ft : fault)                 (* c.parent = a   (also p.append(c), p >> c, c << p: basenode.py:713-719, 811-825) *)
+| BSetParent (c : id) (a : arg) (ft : fault)                 (* c.parent = a   (also p.append(c), p >> c, c << p: basenode.py:715-721, 813-827) *)
 | BSetChildren (p : id) (cont : container) (args : list arg) (ft : fault)   (* p.children = ...   *)
 | BSetLeft (p : id) (a : arg) (ft : fault)                   (* p.left = a                         *)
 | BSetRight (p : id) (a : arg) (ft : fault)                  (* p.right = a                        *)
 | BDelChildren (p : id)                                      (* del p.children                     *)
 | BSort (p : id) (keys : list nat) (reverse : bool)          (* p.sort(key=table, reverse=...)     *)
-| BExtend (p : id) (cs : list id) (fts : list fault)         (* p.extend(cs): one parent setter call each, basenode.py:721-728 *)
+| BExtend (p : id) (cs : list id) (fts : list fault)         (* p.extend(cs): one parent setter call each, basenode.py:723-730 *)
 | BNew (l r par : arg) (ch : list arg) (fp fc : fault).      (* BinaryNode(left=, right=, parent=, children=) *)
 
 Fixpoint bextend_loop (cfg : config) (s : bheap) (p : id) (cs : list id) (fts : list fault)
